@@ -964,7 +964,7 @@ func init() {
 			} {
 				for _, ff := range []uint64{1, 3} { // feature: id, type (varints); tags and geometry (packed varints)
 					c05Raw(c, "mvt(wire)", wrap(3, wrap(2, append(varint(ff<<3|0), long...))), c05MvtDecs)
-					c05Raw(c, "mvt(wire)", wrap(3, append(wrap(1, []byte("l")), wrap(2, append(append(varint(ff<<3|0), long...), varint(3<<3|0)[0], 1))...)), c05MvtDecs)
+					c05Raw(c, "mvt(wire)", wrap(3, append(wrap(1, []byte("l")), wrap(2, append(append(varint(ff<<3|0), long...), varint(3<<3 | 0)[0], 1))...)), c05MvtDecs)
 				}
 				for _, ff := range []uint64{2, 4} {
 					c05Raw(c, "mvt(wire)", wrap(3, wrap(2, wrap(ff, long))), c05MvtDecs)
